@@ -1011,9 +1011,10 @@ class Plot:
                     )
 
             # insert fit infos at the right positions
-            for _i, _fi_dict in _fit_info.items():
-                _hs_sorted.insert(_fi_dict["pos"] + _i, "_nokey_")
-                _ls_sorted.insert(_fi_dict["pos"] + _i, _fi_dict["text"])
+            # (each text inserted before shifts the following positions by one)
+            for _n_inserted, _fi_dict in enumerate(_fit_info.values()):
+                _hs_sorted.insert(_fi_dict["pos"] + _n_inserted, "_nokey_")
+                _ls_sorted.insert(_fi_dict["pos"] + _n_inserted, _fi_dict["text"])
 
             # -- legend layout
 
